@@ -169,6 +169,9 @@ func (i *Interp) decide(c *Term, fr *frame, what string) bool {
 		return d.v == 1
 	}
 	nc := i.ts.Not(c)
+	if !i.pathDeadline.IsZero() && time.Now().After(i.pathDeadline) {
+		panic(pathEnd{kind: "budget", msg: "per-path time limit exceeded (solver time) at " + fr.fi.name})
+	}
 	if nt, nf, exact, ok := i.domCheck(c); ok {
 		if nf == 0 && nt > 0 {
 			ex.taken = append(ex.taken, dec{v: 1, forced: true})
